@@ -47,7 +47,8 @@ def shards(tier):
 def floors(tier):
     return {"errors_checked": 40000, "context_errors_checked": 2000, "errors_through_ref_hop": 500,
             "false_schema_errors": 100, "d3_required_errors": 100, "propertyNames_errors": 100,
-            "errors_below_position0": 3000, "applicator_cells": 60, "identical_objects": 40000, "leaves_without_held_ancestors": 2000}
+            "errors_below_position0": 3000, "applicator_cells": 60, "identical_objects": 40000, "leaves_without_held_ancestors": 2000,
+            "recursive_template_cases": 100}
 
 
 def same(a, b):
@@ -447,6 +448,25 @@ def run(ctx):
                         seen_cells.add((d, cell))
                         ctx.count("applicator_cells")
                         ctx.count("cell:d%d:%s" % (d, cell))
+    # recursive reference templates (incl. the empty reference), every reference object also carrying asserting
+    # keywords, which are ignored: no error may locate itself at one of them
+    rq = random.Random(707)
+    for k in range(ctx.scale(24, 200)):
+        d = impl.DRAFTS[k % 4]
+        gq = SchemaGen(rq, d, maxdepth=1)
+        leaf_s = gq.keyword_schema(rq.choice(["type", "minimum", "maxLength", "enum", "pattern", "maxItems"]))
+        igq = InstGen(rq, leaf_s)
+        for name, S, store in R.recursive_templates(rq, d, leaf_s):
+            idx += 1
+            if not ctx.mine(idx) or name == "metaschema":
+                continue
+            if rq.random() < 0.7:
+                S = R.with_ref_siblings(rq, d, S)
+                store = {u: R.with_ref_siblings(rq, d, doc) for u, doc in store.items()}
+            for _ in range(2):
+                inst = R.recursive_instance(rq, lambda: igq.any(1), rq.choice([2, 3]))
+                ctx.count("recursive_template_cases")
+                check_case(ctx, d, S, store, {}, inst)
     rng = ctx.rng
     for i in range(ctx.scale(2500, 30000)):
         d = impl.DRAFTS[i % 4]
